@@ -1130,6 +1130,13 @@ def cpl(c, F, G = None, h = None, dims = None, A = None, b = None,
                 blas.copy(s, news);  blas.axpy(ds2, news, alpha = step) 
 
                 t = F(newx)
+                if t is None or t[0] is None:
+                    # In exact arithmetic newx is in the domain of f (it
+                    # lies between two points of a convex domain), but 
+                    # rounding can move a point next to the boundary of 
+                    # the domain outside it.
+                    step *= BETA
+                    continue
                 newf, newDf = matrix(t[0], tc = 'd'), t[1]
                 if type(newDf) is matrix or type(Df) is spmatrix:
                     if newDf.typecode != 'd' or \
